@@ -298,6 +298,22 @@ def fixed_cases():
     add("-(a - b) ^ 2", lambda e: -((e["a"] - e["b"]) ** 2))
     add("+(a - b)", lambda e: e["a"] - e["b"])
     add("a < b + c", lambda e: e["a"] < (e["b"] + e["c"]))
+    # long unparenthesised chains (generated models contain sums of dozens of terms): left-associative at every length
+    names = ["a", "b", "c", "d"]
+    for n_terms, opsq in ((40, [".-"]), (40, ["-"]), (70, ["-", "+", ".-", ".+", "-"]), (33, [".-", "+"])):
+        text = names[0]
+        seq = []
+        for k in range(1, n_terms):
+            o = opsq[k % len(opsq)]
+            seq.append((o, names[k % 4]))
+            text += " %s %s" % (o, names[k % 4])
+
+        def fold(e, seq=tuple(seq)):
+            v = e["a"]
+            for o, nm in seq:
+                v = v + e[nm] if o in ("+", ".+") else v - e[nm]
+            return v
+        add(text, fold)
     add("a + b < c", lambda e: (e["a"] + e["b"]) < e["c"])
     add("not a < b", lambda e: not (e["a"] < e["b"]))
     add("not p and q", lambda e: (not e["p"]) and e["q"])
